@@ -103,6 +103,17 @@ def size_leaves(body, e, out, ops, depth=0, seen=None, sub=None):
     out.append(describe(body, e, 0, sub))
 
 
+def _const_leaf(F, l):
+    """size leaves that are compile-time numbers are compared by value: size_of::<Header>() is the
+    same thing as Layout::new::<Header>().size()"""
+    if l == "core::mem::size_of::<repr::heap_buffer::Header>()":
+        lay = F.layouts.get("repr::heap_buffer::Header")
+        return "const:%d" % lay["size"] if lay else l
+    if l == "core::mem::size_of::<usize>()":
+        return "const:%d" % F.ptr_bytes
+    return l
+
+
 def _is_bool_word(body, e):
     e = strip_refs(e)
     if e[0] == "cast" and e[1] == "IntToInt":
@@ -141,7 +152,7 @@ def rule_layout_agreement(ctx, rule="LAYOUT"):
             # shape: the Layout returned is exactly Layout::from_size_align(SIZE, ALIGN) — as
             # `from_size_align(..).map_err(..)` or `match .. { Ok(l) => Ok(l), .. }` — with nothing
             # applied to it afterwards
-            m = (re.match(r"^core::result::Result::<T, E>::map_err\(core::alloc::layout::Layout::from_size_align\(", d) or re.match(r"^core::result::Result::Ok\{ok\(core::alloc::layout::Layout::from_size_align\(", d)
+            m = (re.match(r"^core::result::Result::<T, E>::map_err\(core::alloc::layout::Layout::from_size_align\(", d) or re.match(r"^core::result::Result::<T, E>::or\(core::alloc::layout::Layout::from_size_align\(.*, core::result::Result::Err\{errors::reserve_error::ReserveError::ReserveError\{\}\}\)$", d) or re.match(r"^core::result::Result::Ok\{ok\(core::alloc::layout::Layout::from_size_align\(", d)
                  or re.match(r"^core::result::Result::Ok\{tuple::None\{ok\(core::alloc::layout::Layout::from_size_align\(", d))
             ctx.ob(rule, lfc.path, "layout=from_size_align(size, align)", bool(m), how="result is Layout::from_size_align(size, align) with the error mapped to ReserveError, untransformed",
                    detail="layout_from_capacity post-processes the layout (%s...): realloc sizes the block by hand and would disagree" % d[:120])
@@ -150,8 +161,9 @@ def rule_layout_agreement(ctx, rule="LAYOUT"):
                 t = lfc.term(fb)
                 leaves, ops = [], set()
                 size_leaves(lfc, lfc.origin_operand(t["args"][0]), leaves, ops)
-                want = {hdr, CAP + "as_usize(p1)"}
-                got = set(l for l in leaves if not l.startswith("closure:")) - {usz}
+                leaves = [_const_leaf(F, l) for l in leaves]
+                want = {_const_leaf(F, hdr), CAP + "as_usize(p1)"}
+                got = set(l for l in leaves if not l.startswith("closure:")) - {_const_leaf(F, usz)}
                 ctx.ob(rule, lfc.path, "size=header+capacity", got == want and ops <= {"checked_add", "select"},
                        how="size = checked(size_of::<Header>() + capacity [+ size_of::<usize>() in the on-heap-length layout])",
                        detail="layout size is built from %s with %s" % (sorted(leaves), sorted(ops)))
@@ -183,12 +195,13 @@ def rule_layout_agreement(ctx, rule="LAYOUT"):
                 leaves, ops = [], set()
                 size_leaves(st.body, st.body.origin_operand(st.t["args"][2]), leaves, ops, sub=st.subst[-1])
                 newcap = CAP + "as_usize(ok(%snew(p2)))" % CAP
-                want = {hdr, newcap}
+                leaves = [_const_leaf(F, l) for l in leaves]
+                want = {_const_leaf(F, hdr), newcap}
                 got = set(leaves)
-                extra = got - want - {usz}
+                extra = got - want - {_const_leaf(F, usz)}
                 ok = want <= got and not extra and ops <= {"wrapping_add", "saturating_add", "checked_add", "select"}
                 if F.ptr_bits == 64:
-                    ok = ok and usz not in got
+                    ok = ok and _const_leaf(F, usz) not in got
                 ctx.ob(rule, path, "realloc-new-size", ok, how="new size = size_of::<Header>() + new_capacity%s, the function layout_from_capacity computes" % (" (+ size_of::<usize>() when the length lives in the allocation)" if F.ptr_bits == 32 else ""),
                        detail="realloc's new size is built from %s with %s: disagrees with layout_from_capacity (the block would later be released with a different size)" % (sorted(leaves), sorted(ops)))
     # Header values: written only next to an allocator call, with the capacity that sized the block
@@ -304,7 +317,8 @@ def rule_null_checks(ctx, rule="NULLCHK"):
                 for null_t in null_ts[:1]:
                     reach = b.reachable(null_t, unwind=False)
                     calls = [callee_name(b.term(x)) for x in reach if b.term(x)["k"] == "call" and not (b.term(x).get("local_key") and _is_noop(F, b.term(x)["local_key"]))]
-                    errs = [x for x in reach for s in b.blocks[x]["stmts"] if s["k"] == "assign" and s["lhs"]["l"] == 0 and not s["lhs"]["p"] and s["rv"]["k"] == "aggregate" and s["rv"].get("variant_name") == "Err"]
+                    # (an Err built in place, or by a private effect-free helper such as `reserve_failed()`)
+                    errs = [dbb for (dbb, si, x) in b.defs.get(0, []) if dbb in reach and describe(b, ("call", dbb) if si == "term" else b.origin_rvalue(x)).startswith(("core::result::Result::Err{", "err("))]
                     ctx.ob(rule, path, "null->Err:" + callee_name(t), bool(errs) and not calls, how="null edge builds Err(ReserveError) and returns", detail="null edge does %s instead of just returning Err" % (calls or "not build Err"))
     ctx.need(rule, "crate", "allocator-sites", n >= 2, "only %d allocator call sites found" % n, how="%d allocator call sites" % n)
 
